@@ -41,6 +41,7 @@ from engine.sx import tmo_world as W
 # verdicts) and hand branch-feasibility queries over to it early (this process only), as C02 does
 os.environ.setdefault('VERIF_PROVE_FRESH_MS', '5000')
 os.environ.setdefault('VERIF_PROVE_FRESH_ORDER', 'default,nlsat')
+os.environ.setdefault('VERIF_STABLE_HASH', '1')    # re-execution check modulo the argument order z3.simplify gives to sums
 if 'VERIF_BRANCH_TIMEOUT_MS' not in os.environ:
     from engine.sx import sym as _sym
     _sym.BRANCH_TIMEOUT_MS = 400
@@ -136,23 +137,11 @@ class StubPsat:
             # DewPoint._T_error replaces vapour pressures below 1e-16 Pa ("prevent floating point error"); the
             # property's equation is about the model's Psat, so such models are outside the requires.
             w.assume(w.ge(v, 1e-16))
-        _rng(self.env, v, 'Psat')
+        if self.env.cfg['z'].startswith('s*('):
+            w.assume(w.le(v, 1e12))      # concrete-composition configurations: with this bound no 1e-32 trace guard can fire
         return v
 
     def __bool__(self): return True
-
-
-# 'ranges' configurations: physically generous bounds on the model values (requires), under which none of the
-# 1e-32 / 1e-16 floating-point guards of dew_point.py can fire; the other configurations leave the models unbounded
-# and explore every guard outcome.
-RANGES = {'Psat': (1e-3, 1e8), 'gamma': (1e-3, 1e3), 'phi': (1e-2, 1e2), 'pcf': (1e-1, 1e1)}
-
-
-def _rng(env, v, what):
-    if env.cfg.get('ranges'):
-        lo, hi = RANGES[what]
-        env.w.assume(env.w.And(env.w.ge(v, lo), env.w.le(v, hi)))
-    return v
 
 
 def _canon(order, xs):
@@ -174,7 +163,9 @@ class StubGamma:
         w = self.env.w
         xs = list(x)
         cx = _canon(self.order, xs)
-        out = [_rng(self.env, w.fn(f'gamma.{ID}', positive=True)(*cx, T), 'gamma') for ID in self.IDs]
+        out = [w.fn(f'gamma.{ID}', positive=True)(*cx, T) for ID in self.IDs]
+        if self.env.cfg['z'].startswith('s*('):
+            for v in out: w.assume(w.le(v, 1e12))     # see StubPsat: keeps the trace guards decidable
         if self.recording:
             self.calls.append((xs, T, out))
         return self.env.arr(out)
@@ -193,7 +184,7 @@ class StubPhi:
     def __call__(self, y, T, P):
         w = self.env.w
         cy = _canon(self.order, y)
-        return self.env.arr([_rng(self.env, w.fn(f'phi.{ID}', positive=True)(*cy, T, P), 'phi') for ID in self.IDs])
+        return self.env.arr([w.fn(f'phi.{ID}', positive=True)(*cy, T, P) for ID in self.IDs])
 
 
 class StubPCF:
@@ -202,7 +193,7 @@ class StubPCF:
 
     def __call__(self, T, P, Psats=None):
         w = self.env.w
-        return self.env.arr([_rng(self.env, w.fn(f'pcf.{ID}', positive=True)(T, P), 'pcf') for ID in self.IDs])
+        return self.env.arr([w.fn(f'pcf.{ID}', positive=True)(T, P) for ID in self.IDs])
 
 
 # --------------------------------------------------------------------------- A-root
@@ -265,7 +256,8 @@ class StubFlx:
             w.ensure(f'{self.tag}{key}: the fixed point of the reference problem is one of this problem', w.all_eq(list(r), list(xs)))
             self.roots[key] = xs
             return xs
-        xs = self.env.arr([self.env.leaf(f'{key}.x{i}', lo=0., lo_strict=self.fixed_point_positive) for i in range(n)])
+        hi = 1e12 if (self.fixed_point_positive and self.env.cfg['z'].startswith('s*(')) else None   # a gamma value (StubGamma bound)
+        xs = self.env.arr([self.env.leaf(f'{key}.x{i}', lo=0., lo_strict=self.fixed_point_positive, hi=hi) for i in range(n)])
         r = f(xs, *args)
         w.assume(w.all_eq(list(r), list(xs)))
         self.roots[key] = xs
@@ -371,7 +363,14 @@ def _total(xs):
 
 
 def plant_z(w, pattern, name='z'):
-    """'+' leaf > 0, '?' leaf >= 0 (presence decided by the explorer), '0' concrete zero."""
+    """
+    '+' leaf > 0, '?' leaf >= 0 (presence decided by the explorer), '0' concrete zero;
+    's*(0.3,0.7)': a concrete composition times one leaf s > 0 (arbitrary total, keeps the guard conditions of
+    dew_point.py decidable: used for the configurations that evaluate the residual several times).
+    """
+    if pattern.startswith('s*('):
+        s = w.real(f'{name}.scale', lo=0., lo_strict=True)
+        return [(s * float(c) if float(c) else 0.) for c in pattern[3:-1].split(',')]
     out = []
     for i, c in enumerate(pattern):
         if c == '0': out.append(0.)
@@ -433,34 +432,54 @@ def check_point(w, h, zvals, given, which, res, comp, tag=''):
 
 
 def _configs_for(solver):
+    """
+    Structure family per solver: 1-3 chemicals, presence pattern of z, which models are uninterpreted stubs and which are
+    the real Ideal/Mock classes, first secant call succeeds / raises (fall-back bracket branch), k probe evaluations.
+    Quick keeps to one stubbed model at a time for the dew point (every floating-point guard of dew_point.py on a symbolic
+    value is a 2-way fork: ~40-60 paths per two-component configuration); thorough adds all-stub and larger ones.
+    """
     kind = SOLVERS[solver][0]
 
     def configs(tier):
         out = []
 
-        def add(IDs, pat, gamma='stub', phi='stub', pcf='stub', secant='ok', k=0, ranges=False):
-            nm = f"{'+'.join(i[:3] for i in IDs)};z={pat};gamma={gamma};phi={phi};pcf={pcf};secant={secant};k={k}" + (';ranges' if ranges else '')
-            out.append({'name': nm, 'IDs': list(IDs), 'z': pat, 'gamma': gamma, 'phi': phi, 'pcf': pcf, 'secant': secant, 'k': k,
-                        'ranges': ranges})
+        def add(IDs, pat, gamma='stub', phi='stub', pcf='stub', secant='ok', k=0):
+            nm = f"{'+'.join(i[:3] for i in IDs)};z={pat};gamma={gamma};phi={phi};pcf={pcf};secant={secant};k={k}"
+            out.append({'name': nm, 'IDs': list(IDs), 'z': pat, 'gamma': gamma, 'phi': phi, 'pcf': pcf, 'secant': secant, 'k': k})
         WE = ('Water', 'Ethanol'); WEM = ('Water', 'Ethanol', 'Methanol'); Wt = ('Water',)
+        ideal = dict(gamma='ideal', phi='ideal', pcf='mock')
+        # single positive component / nothing present
         add(Wt, '+'); add(Wt, '?')
-        add(WE, '+0'); add(WE, '0+'); add(WEM, '0+0'); add(WEM, '00+', gamma='ideal', phi='ideal', pcf='mock')
-        add(WE, '++'); add(WE, '++', secant='raise')
-        add(WE, '++', ranges=True)
-        add(WE, '++', gamma='ideal', phi='ideal', pcf='mock'); add(WE, '++', gamma='ideal', phi='ideal', pcf='mock', secant='raise')
-        add(WE, '+?', phi='ideal')
-        add(WEM, '+0+', phi='ideal')
-        add(WEM, '+++', gamma='ideal', phi='ideal', pcf='mock')
+        add(WE, '+0'); add(WE, '0+'); add(WEM, '0+0'); add(WEM, '00+', **ideal)
+        # two components, one uninterpreted model at a time + the real ideal classes
+        SC = 's*(0.3,0.7)'
+        add(WE, '++', **ideal)
+        add(WE, '++', phi='ideal', pcf='mock')
+        if kind == 'bubble':
+            add(WE, '++', gamma='ideal', pcf='mock'); add(WE, '++', gamma='ideal', phi='ideal')
+            add(WE, '++'); add(WE, '++', secant='raise', phi='ideal')
+            add(WE, '+?', phi='ideal'); add(WEM, '+0+', phi='ideal'); add(WEM, '+++', **ideal)
+        else:
+            add(WE, SC, gamma='ideal', pcf='mock'); add(WE, SC, gamma='ideal', phi='ideal'); add(WE, SC, phi='ideal', pcf='mock')
+            add(WE, SC, secant='raise', **ideal)
+            add(WEM, 's*(0.2,0,0.8)', **ideal)
         if tier == 'thorough':
-            add(WE, '++', k=1); add(WE, '++', secant='raise', k=1)
-            add(WE, '??'); add(WE, '?+', gamma='ideal')
-            for gm, ph, pc in itertools.product(('ideal', 'stub'), ('ideal', 'stub'), ('mock', 'stub')):
-                if (gm, ph, pc) in (('stub', 'stub', 'stub'), ('ideal', 'ideal', 'mock')): continue
+            add(WE, '++', k=1, phi='ideal'); add(WE, '++', secant='raise', k=1, **ideal)
+            add(WE, '??', **ideal); add(WE, '?+', gamma='ideal', pcf='mock'); add(WE, '+?', **ideal)
+            for gm, ph, pc in (('ideal', 'stub', 'mock'), ('ideal', 'ideal', 'stub'), ('stub', 'stub', 'mock'), ('stub', 'ideal', 'stub'),
+                               ('ideal', 'stub', 'stub'), ('stub', 'stub', 'stub')):
                 add(WE, '++', gamma=gm, phi=ph, pcf=pc)
-            add(WEM, '+++'); add(WEM, '+++', secant='raise', gamma='ideal')
-            add(WEM, '++?', gamma='ideal', phi='ideal'); add(WEM, '?0?', phi='ideal', pcf='mock')
-            add(('Methanol', 'Water', 'Ethanol'), '+++', phi='ideal', pcf='mock')
-        return out
+            add(WE, SC, secant='raise', phi='ideal', pcf='mock'); add(WE, SC, secant='raise'); add(WE, SC, k=1, phi='ideal', pcf='mock')
+            add(WEM, '+++', **ideal); add(WEM, '+0+', phi='ideal'); add(WEM, 's*(0.2,0.3,0.5)', phi='ideal', pcf='mock')
+            add(WEM, '++?', **ideal)
+            add(('Methanol', 'Water', 'Ethanol'), 's*(0.5,0.25,0.25)')
+            if kind == 'bubble':
+                add(WE, '++', secant='raise'); add(WEM, '+++'); add(WEM, '+++', secant='raise', phi='ideal'); add(WEM, '?0?', phi='ideal', pcf='mock')
+        seen = set(); uniq = []
+        for c in out:
+            if c['name'] not in seen:
+                seen.add(c['name']); uniq.append(c)
+        return uniq
     return configs
 
 
@@ -470,17 +489,12 @@ def _solver_body(solver):
     def body(w, cfg):
         W.reset_caches()
         env = Env(w, cfg)
-        mods = {'bubble': bp_mod, 'dew': dp_mod}
         saved = (bp_mod.flx, dp_mod.flx, dp_mod.gamma_iter)
         try:
             flx = StubFlx(env, fail=('aitken_secant#0',) if cfg['secant'] == 'raise' else (), k=cfg['k'],
                           fixed_point_positive=(kind == 'dew'))
             h = Harness(env, cfg, kind, flx=flx)
             zvals = plant_z(w, cfg['z'])
-            if cfg.get('ranges'):       # no trace components: every present mole fraction is at least 1e-6
-                S0 = _total(zvals)
-                for v in zvals:
-                    if _is_sym(v): w.assume(w.ge(v, 1e-6 * S0))
             given = spec_leaf(w, h, which)
             z = env.arr(zvals)
             try:
@@ -519,3 +533,331 @@ for _s, (_kind, _m, _wh) in SOLVERS.items():
     group(f'C08/{_kind}_{_s}', configs=_configs_for(_s),
           functions=[f'{_mod}:{f}' for f in _FUNCS[_s]] + ['thermosteam.functional:normalize', 'thermosteam.functional:first_true_index'],
           assumptions=_A)(_solver_body(_s))
+
+
+# --------------------------------------------------------------------------- same solution for k*z, permuted chemicals, T <-> P
+
+OTHER = {'Ty': 'Py', 'Py': 'Ty', 'Tx': 'Px', 'Px': 'Tx'}
+
+
+def relation_configs(tier):
+    out = []
+    WE = ('Water', 'Ethanol'); WEM = ('Water', 'Ethanol', 'Methanol')
+
+    def add(solver, rel, IDs=WE, pat='++', gamma='ideal', phi='ideal', pcf='mock', perm=None):
+        nm = f"{solver};{rel};{'+'.join(i[:3] for i in IDs)};z={pat};gamma={gamma};phi={phi};pcf={pcf}" + (f";perm={''.join(map(str, perm))}" if perm else '')
+        out.append({'name': nm, 'solver': solver, 'rel': rel, 'IDs': list(IDs), 'z': pat, 'gamma': gamma, 'phi': phi, 'pcf': pcf,
+                    'perm': perm, 'secant': 'ok', 'k': 0})
+    SC = 's*(0.3,0.7)'
+    for solver in SOLVERS:
+        bubble = SOLVERS[solver][0] == 'bubble'
+        pat = '++' if bubble else SC        # dew point: concrete composition with arbitrary total in quick (guard forks)
+        add(solver, 'scale', pat=pat)
+        add(solver, 'perm', pat=pat, perm=[1, 0])
+        add(solver, 'inverse', pat=pat)
+        if bubble:
+            add(solver, 'scale', gamma='stub'); add(solver, 'perm', gamma='stub', perm=[1, 0]); add(solver, 'inverse', gamma='stub', pcf='stub')
+        if tier == 'thorough':
+            add(solver, 'scale', pat=pat, phi='stub'); add(solver, 'inverse', pat=pat, phi='stub'); add(solver, 'perm', pat=pat, phi='stub', perm=[1, 0])
+            add(solver, 'perm', IDs=WEM, pat='+++' if bubble else 's*(0.2,0.3,0.5)', perm=[2, 0, 1])
+            add(solver, 'scale', IDs=WEM, pat='+0+' if bubble else 's*(0.2,0,0.8)')
+            if not bubble:
+                add(solver, 'scale', pat=SC, gamma='stub'); add(solver, 'perm', pat=SC, gamma='stub', perm=[1, 0]); add(solver, 'inverse', pat=SC, gamma='stub')
+                add(solver, 'scale'); add(solver, 'inverse')
+            else:
+                add(solver, 'scale', gamma='stub', phi='stub', pcf='stub')
+    return out
+
+
+@group('C08/same_solution', configs=relation_configs,
+       functions=['thermosteam.equilibrium.bubble_point:BubblePoint.solve_Ty', 'thermosteam.equilibrium.bubble_point:BubblePoint.solve_Py',
+                  'thermosteam.equilibrium.dew_point:DewPoint.solve_Tx', 'thermosteam.equilibrium.dew_point:DewPoint.solve_Px'],
+       assumptions=_A + ['A-root gives no uniqueness: "returns the same value" is proved as "the solution found for the reference '
+                         'problem solves the second problem (the root finders of the second call are handed that solution and its '
+                         'residual must be 0) and the returned compositions are identical"'])
+def same_solution(w, cfg):
+    """
+    rel = scale:   solve(z) then solve(k*z), k > 0 arbitrary
+          perm:    solve(z) then the solver object built for the permuted chemical list with the permuted z
+          inverse: P = solve_P(z, T) then solve_T(z, P) must be solved by the original T (and vice versa)
+    """
+    W.reset_caches()
+    env = Env(w, cfg)
+    solver = cfg['solver']; rel = cfg['rel']
+    kind, meth, which = SOLVERS[solver]
+    saved = (bp_mod.flx, dp_mod.flx, dp_mod.gamma_iter)
+    try:
+        flx1 = StubFlx(env, fixed_point_positive=(kind == 'dew'))
+        h = Harness(env, cfg, kind, flx=flx1)
+        zvals = plant_z(w, cfg['z'])
+        given = spec_leaf(w, h, which)
+        res1, comp1 = getattr(h.point, meth)(env.arr(zvals), given)
+        comp1 = list(comp1)
+        roots1 = dict(flx1.roots)
+        h2, z2, given2, meth2, want_res, want_comp = h, zvals, given, meth, res1, comp1
+        script = {k: v for k, v in roots1.items()}
+        if rel == 'scale':
+            k = w.real('k', lo=0., lo_strict=True)
+            z2 = [k * v for v in zvals]
+        elif rel == 'perm':
+            perm = cfg['perm']
+            IDs2 = [cfg['IDs'][i] for i in perm]
+            h2 = Harness(env, cfg, kind, IDs=IDs2, flx=None)
+            z2 = [zvals[i] for i in perm]
+            want_comp = [comp1[i] for i in perm]
+            script = {k: (env.arr([v[i] for i in perm]) if isinstance(v, np.ndarray) else v) for k, v in roots1.items()}
+        elif rel == 'inverse':
+            o = OTHER[solver]
+            meth2 = SOLVERS[o][1]
+            given2, want_res = res1, given
+            if which == 'P':     # the computed T must lie in the solver object's temperature domain (solve_Py clips to it)
+                w.assume(w.And(w.ge(res1, h.point.Tmin), w.le(res1, h.point.Tmax)))
+            script = {k: v for k, v in roots1.items() if k.startswith('wegstein')}
+            script['aitken_secant#0'] = given
+        flx2 = StubFlx(env, script=script, tag='second problem: ', fixed_point_positive=(kind == 'dew'))
+        h2.install(flx2)
+        res2, comp2 = getattr(h2.point, meth2)(env.arr(z2), given2)
+        w.ensure('second problem returns the value of the first / the original specification', w.eq(res2, want_res))
+        w.ensure('second problem returns the same composition', w.all_eq(list(comp2), want_comp))
+        w.ensure('frame: solver objects unchanged', w.And(h.frame_ok(), h2.frame_ok()))
+        w.canary('canary: second result is the first result + 1', w.eq(res2, want_res + 1.))
+        w.note(first=res1, second=res2, calls_first=dict(flx1.counts), calls_second=dict(flx2.counts))
+    finally:
+        bp_mod.flx, dp_mod.flx, dp_mod.gamma_iter = saved
+        env.restore()
+        W.reset_caches()
+
+
+# --------------------------------------------------------------------------- instance cache of BubblePoint / DewPoint
+
+def cache_configs(tier):
+    return [{'name': f'{c};{"+".join(IDs)}', 'cls': c, 'IDs': list(IDs)} for c in ('BubblePoint', 'DewPoint')
+            for IDs in ([('Water', 'Ethanol')] + ([('Water', 'Ethanol', 'Methanol'), ('Water',)] if tier == 'thorough' else []))]
+
+
+@group('C08/instance_cache', configs=cache_configs, loop_free=True,
+       functions=['thermosteam.equilibrium.bubble_point:BubblePoint.__new__', 'thermosteam.equilibrium.dew_point:DewPoint.__new__',
+                  'thermosteam.equilibrium.domain:vle_domain'])
+def instance_cache(w, cfg):
+    """Two lookups with equal key return the object built from that key; instances depend only on the key (no leaves: concrete)."""
+    W.reset_caches()
+    try:
+        cls = getattr(bp_mod, 'BubblePoint') if cfg['cls'] == 'BubblePoint' else dp_mod.DewPoint
+        IDs = tuple(cfg['IDs'])
+        th = W.thermo(IDs); thI = ideal_thermo(IDs)
+        chems = th.chemicals.tuple
+        a = cls(chems, th); b = cls(list(chems), th); c = cls(chems, thI); a2 = cls(chems, th)
+        w.ensure('equal key (tuple or list of the same chemicals, same package classes): same object', a is b and a is a2)
+        w.ensure('another activity model: another object, built with that model',
+                 c is not a and type(c.gamma) is eq.IdealActivityCoefficients and (len(IDs) < 2 or type(a.gamma) is th.Gamma or
+                                                                                type(a.gamma) is eq.IdealActivityCoefficients))
+        for nm, o in (('first', a), ('ideal', c)):
+            w.ensure(f'{nm}: chemicals, IDs, Psats are those of the key, in the order of the key',
+                     o.chemicals == chems and o.IDs == IDs and all(p is ch.Psat for p, ch in zip(o.Psats, chems)))
+            w.ensure(f'{nm}: temperature / pressure domain comes from the chemicals of the key',
+                     (o.Tmin, o.Tmax) == tuple(sys.modules['thermosteam.equilibrium.domain'].vle_domain(chems))
+                     and o.Pmin == min(p(o.Tmin) for p in o.Psats) and o.Pmax == max(p(o.Tmax) for p in o.Psats))
+        if len(IDs) > 1:
+            r = tuple(reversed(chems))
+            d = cls(r, th)
+            w.ensure('permuted chemical list: another object in that order', d is not a and d.chemicals == r and d.IDs == tuple(reversed(IDs)))
+        w.ensure('the two classes do not share their cache', bp_mod.BubblePoint._cached is not dp_mod.DewPoint._cached)
+        w.ensure('lookups stay stable after the other objects were built', cls(chems, th) is a and cls(chems, thI) is c)
+        w.canary('canary: objects for different activity models are the same object', a is c)
+    finally:
+        W.reset_caches()
+
+
+# --------------------------------------------------------------------------- mode B: the real solvers on real data
+
+B_CHEMS = ['Water', 'Ethanol', 'Methanol', 'Propanol', 'Butanol', 'Hexane', 'Heptane', 'Octane', 'Benzene', 'Toluene']
+for _i in B_CHEMS:
+    W.chemical(_i)          # created before forking
+_HC = {'Hexane', 'Heptane', 'Octane', 'Benzene', 'Toluene'}
+# pairs for which the Dortmund model predicts a liquid-liquid miscibility gap inside the T range of the property
+LLE_PAIRS = {frozenset((a, b)) for a in ('Water',) for b in _HC} | {frozenset(('Methanol', b)) for b in ('Hexane', 'Heptane', 'Octane')}
+_b_thermo = {}
+
+
+def b_thermo(IDs, pkg):
+    key = (tuple(IDs), pkg)
+    t = _b_thermo.get(key)
+    if t is None:
+        cs = tmo.Chemicals([W.chemical(i) for i in IDs]); cs.compile()
+        t = _b_thermo[key] = (tmo.Thermo(cs) if pkg == 'dortmund' else
+                              tmo.Thermo(cs, Gamma=eq.IdealActivityCoefficients, Phi=eq.IdealFugacityCoefficients,
+                                         PCF=eq.MockPoyintingCorrectionFactors))
+    return t
+
+
+def _compositions(n, tier):
+    if n == 1:
+        return [[2.5]]
+    zs = [[1. / n] * n, [0.1] + [0.9 / (n - 1)] * (n - 1), [0.9 / (n - 1)] * (n - 1) + [0.1],
+          [1e-6] + [1. / (n - 1)] * (n - 1),            # trace component (not normalised)
+          [0.] + [1. / (n - 1)] * (n - 1)]               # component at zero (n = 2: single positive component)
+    if tier == 'thorough':
+        zs += [[(i + 1.) for i in range(n)], [1. / (n - 1)] * (n - 1) + [1e-9], [0.] * (n - 1) + [3.]]
+    return zs
+
+
+def grid_configs(tier):
+    C = B_CHEMS
+    subsets = [(c,) for c in C]
+    pairs = [('Water', 'Ethanol'), ('Water', 'Methanol'), ('Ethanol', 'Methanol'), ('Ethanol', 'Propanol'), ('Propanol', 'Butanol'),
+             ('Hexane', 'Heptane'), ('Heptane', 'Octane'), ('Benzene', 'Toluene'), ('Hexane', 'Benzene'), ('Methanol', 'Benzene'),
+             ('Ethanol', 'Hexane'), ('Water', 'Butanol'), ('Water', 'Hexane'), ('Methanol', 'Octane'), ('Toluene', 'Water')]
+    triples = [('Water', 'Ethanol', 'Methanol'), ('Hexane', 'Heptane', 'Octane'), ('Benzene', 'Toluene', 'Heptane'),
+               ('Ethanol', 'Propanol', 'Butanol'), ('Methanol', 'Ethanol', 'Benzene'), ('Water', 'Ethanol', 'Hexane')]
+    quads = [('Water', 'Ethanol', 'Methanol', 'Propanol'), ('Hexane', 'Heptane', 'Octane', 'Benzene'),
+             ('Methanol', 'Ethanol', 'Propanol', 'Toluene')]
+    if tier == 'thorough':
+        pairs = list(itertools.combinations(C, 2))
+        triples += [('Water', 'Methanol', 'Butanol'), ('Octane', 'Toluene', 'Propanol'), ('Hexane', 'Benzene', 'Ethanol'),
+                    ('Butanol', 'Water', 'Propanol'), ('Methanol', 'Hexane', 'Toluene')]
+        quads += [('Water', 'Butanol', 'Benzene', 'Octane'), ('Ethanol', 'Hexane', 'Toluene', 'Methanol')]
+    Ps = [2e4, 101325., 5e5] if tier == 'quick' else [5e3, 2e4, 101325., 5e5, 2e6, 3e6]
+    Ts = [300., 350., 420.] if tier == 'quick' else [260., 300., 350., 400., 450., 480.]
+    ks = [2.] if tier == 'quick' else [0.5, 7., 1e3]
+    out = []
+    for IDs in subsets + pairs + triples + quads:
+        n = len(IDs)
+        gap = any(frozenset(p) in LLE_PAIRS for p in itertools.combinations(IDs, 2))
+        for pkg in ('ideal', 'dortmund'):
+            for zi, z in enumerate(_compositions(n, tier)):
+                npos = sum(1 for v in z if v > 0)
+                cls = 'single' if npos == 1 else ('LLE-prone' if (gap and pkg == 'dortmund') else 'miscible')
+                perms = [list(reversed(range(n)))] if tier == 'quick' else [list(p) for p in itertools.permutations(range(n))][1:6]
+                out.append({'name': f"{pkg};{cls};{'+'.join(IDs)};z={','.join(f'{v:g}' for v in z)}", 'IDs': list(IDs), 'pkg': pkg,
+                            'z': z, 'Ps': Ps, 'Ts': Ts, 'ks': ks, 'perms': perms if n > 1 else []})
+    return out
+
+
+T_ATOL = 1e-5       # K     (solver: xtol 1e-9 K, ytol 5e-12)
+P_RTOL = 1e-6       #       (solver: xtol 1e-3 Pa, ytol 1e-9 / 5e-12)
+X_ATOL = 1e-6
+RES_TOL = 1e-7
+
+
+def _close_arr(a, b, tol=X_ATOL):
+    a = np.asarray(a, float); b = np.asarray(b, float)
+    return a.shape == b.shape and bool(np.all(np.abs(a - b) <= tol))
+
+
+def _bubble_terms(BP, zb, T, P, y):
+    Ps = np.array([p(T) for p in BP.Psats], dtype=float)
+    return zb * BP.gamma(zb, T) * BP.pcf(T, P, Ps) * Ps / (BP.phi(y, T, P) * P)
+
+
+def _dew_terms(DP, zb, T, P, x):
+    Ps = np.array([p(T) for p in DP.Psats], dtype=float)
+    return zb * DP.phi(zb, T, P) * P / (DP.gamma(x, T) * DP.pcf(T, P, Ps) * Ps)
+
+
+@group('C08/grid_real_solvers', configs=grid_configs, mode='B',
+       functions=['thermosteam.equilibrium.bubble_point:BubblePoint.solve_Ty', 'thermosteam.equilibrium.bubble_point:BubblePoint.solve_Py',
+                  'thermosteam.equilibrium.dew_point:DewPoint.solve_Tx', 'thermosteam.equilibrium.dew_point:DewPoint.solve_Px',
+                  'thermosteam._chemical:Chemical.Tsat'],
+       notes='real flexsolve solvers and real property data: 1-4 of 10 volatile chemicals (quick: 10 singles, 15 pairs, 6 triples, '
+             '3 quadruples; thorough: all 45 pairs, 11 triples, 5 quadruples), ideal and Dortmund packages, 5 (8) compositions incl. '
+             'trace, zero and unnormalised ones, P in {2e4, 101325, 5e5} ({5e3..3e6}) Pa, T in {300, 350, 420} ({260..480}) K, '
+             'k in {2} ({0.5, 7, 1e3}), reversed (up to 5) permutations; a specification is skipped when a solver raises RuntimeError or '
+             'a computed T / P leaves the quantifier range (T 260-480 K inside the solver object domain, P 5e3-3e6 Pa); '
+             'tolerances: T 1e-5 K, P 1e-6 relative, fractions 1e-6, residual 1e-7')
+def grid_real_solvers(w, cfg):
+    IDs = cfg['IDs']; pkg = cfg['pkg']
+    z = np.array(cfg['z'], dtype=float)
+    zb = z / z.sum()
+    n = len(z)
+    th = b_thermo(IDs, pkg)
+    chems = th.chemicals.tuple
+    BP = eq.BubblePoint(chems, th); DP = eq.DewPoint(chems, th)
+    Tlo, Thi = max(260., BP.Tmin), min(480., BP.Tmax)
+    single = int(np.sum(z > 0)) == 1
+    k1 = int(np.argmax(z > 0))
+    evaluated = skipped = 0
+
+    def others(tag, which, spec, Tb, y, Td, x):
+        """k*z and permutations give the same points."""
+        for k in cfg['ks']:
+            for nm, f, ref, rc in (('bubble', BP.solve_Ty if which == 'P' else BP.solve_Py, Tb, y),
+                                   ('dew', DP.solve_Tx if which == 'P' else DP.solve_Px, Td, x)):
+                r2, c2 = f(k * z, spec)
+                ok = (abs(r2 - ref) <= T_ATOL) if which == 'P' else (abs(r2 / ref - 1.) <= P_RTOL)
+                w.ensure(f'{tag}{nm}: same point for k*z', ok and _close_arr(c2, rc), k=k, z=ref, kz=r2)
+        for pi, perm in enumerate(cfg['perms']):
+            IDs2 = [IDs[i] for i in perm]
+            th2 = b_thermo(IDs2, pkg)
+            BP2 = eq.BubblePoint(th2.chemicals.tuple, th2); DP2 = eq.DewPoint(th2.chemicals.tuple, th2)
+            z2 = z[perm]
+            for nm, f, ref, rc in (('bubble', BP2.solve_Ty if which == 'P' else BP2.solve_Py, Tb, y),
+                                   ('dew', DP2.solve_Tx if which == 'P' else DP2.solve_Px, Td, x)):
+                r2, c2 = f(z2.copy(), spec)
+                ok = (abs(r2 - ref) <= T_ATOL) if which == 'P' else (abs(r2 / ref - 1.) <= P_RTOL)
+                w.ensure(f'{tag}{nm}: same point for the permuted chemical list', ok and _close_arr(c2, np.asarray(rc)[perm]),
+                         perm=perm, original=ref, permuted=r2)
+
+    for P in cfg['Ps']:
+        tag = f'P={P:g}: '
+        zin = z.copy()
+        try:
+            Tb, y = BP.solve_Ty(zin, P); Td, x = DP.solve_Tx(zin, P)
+        except RuntimeError:
+            skipped += 1; continue
+        if not (Tlo <= Tb <= Thi and Tlo <= Td <= Thi):
+            skipped += 1; continue
+        evaluated += 1
+        w.ensure(f'{tag}frame: z unchanged', bool(np.all(zin == z)))
+        w.ensure(f'{tag}bubble: y sums to one', abs(y.sum() - 1.) <= 1e-9, y=y)
+        w.ensure(f'{tag}dew: x sums to one', abs(x.sum() - 1.) <= 1e-9, x=x)
+        if single:
+            c = chems[k1]
+            if P <= c.Pc:
+                Ts = c.Tsat(P, check_validity=False)
+                w.ensure(f'{tag}bubble: single component gives Tsat', Tb == Ts and _close_arr(y, zb, 0.), Tb=Tb, Tsat=Ts)
+                w.ensure(f'{tag}dew: single component gives Tsat', Td == Ts and _close_arr(x, zb, 0.), Td=Td, Tsat=Ts)
+        else:
+            tb = _bubble_terms(BP, zb, Tb, P, y); td = _dew_terms(DP, zb, Td, P, x)
+            w.ensure(f'{tag}bubble: Raoult fractions sum to one (residual)', abs(1. - tb.sum()) <= RES_TOL, residual=1. - tb.sum(), T=Tb)
+            w.ensure(f'{tag}bubble: y are the Raoult fractions', _close_arr(y, tb), y=y, raoult=tb)
+            w.ensure(f'{tag}dew: Raoult fractions sum to one (residual)', abs(1. - td.sum()) <= RES_TOL, residual=1. - td.sum(), T=Td)
+            w.ensure(f'{tag}dew: x are the Raoult fractions', _close_arr(x, td), x=x, raoult=td)
+        w.ensure(f'{tag}bubble T <= dew T', Tb <= Td + T_ATOL, Tb=Tb, Td=Td)
+        Pb2, _ = BP.solve_Py(z.copy(), Tb); Pd2, _ = DP.solve_Px(z.copy(), Td)
+        w.ensure(f'{tag}bubble: P(T(P)) = P', abs(Pb2 / P - 1.) <= 10 * P_RTOL, P_back=Pb2, T=Tb)
+        w.ensure(f'{tag}dew: P(T(P)) = P', abs(Pd2 / P - 1.) <= 10 * P_RTOL, P_back=Pd2, T=Td)
+        others(tag, 'P', P, Tb, y, Td, x)
+
+    for T in cfg['Ts']:
+        tag = f'T={T:g}: '
+        if not (Tlo <= T <= Thi):
+            skipped += 1; continue
+        zin = z.copy()
+        try:
+            Pb, y = BP.solve_Py(zin, T); Pd, x = DP.solve_Px(zin, T)
+        except RuntimeError:
+            skipped += 1; continue
+        if not (5e3 <= Pb <= 3e6 and 5e3 <= Pd <= 3e6):
+            skipped += 1; continue
+        evaluated += 1
+        w.ensure(f'{tag}frame: z unchanged', bool(np.all(zin == z)))
+        w.ensure(f'{tag}bubble: y sums to one', abs(y.sum() - 1.) <= 1e-9, y=y)
+        w.ensure(f'{tag}dew: x sums to one', abs(x.sum() - 1.) <= 1e-9, x=x)
+        if single:
+            c = chems[k1]
+            if T <= c.Tc:
+                Ps = c.Psat(T)
+                w.ensure(f'{tag}bubble: single component gives Psat', Pb == Ps and _close_arr(y, zb, 0.), Pb=Pb, Psat=Ps)
+                w.ensure(f'{tag}dew: single component gives Psat', Pd == Ps and _close_arr(x, zb, 0.), Pd=Pd, Psat=Ps)
+        else:
+            tb = _bubble_terms(BP, zb, T, Pb, y); td = _dew_terms(DP, zb, T, Pd, x)
+            w.ensure(f'{tag}bubble: Raoult fractions sum to one (residual)', abs(1. - tb.sum()) <= RES_TOL, residual=1. - tb.sum(), P=Pb)
+            w.ensure(f'{tag}bubble: y are the Raoult fractions', _close_arr(y, tb), y=y, raoult=tb)
+            w.ensure(f'{tag}dew: Raoult fractions sum to one (residual)', abs(1. - td.sum()) <= RES_TOL, residual=1. - td.sum(), P=Pd)
+            w.ensure(f'{tag}dew: x are the Raoult fractions', _close_arr(x, td), x=x, raoult=td)
+        w.ensure(f'{tag}dew P <= bubble P', Pd <= Pb * (1. + P_RTOL), Pb=Pb, Pd=Pd)
+        Tb2, _ = BP.solve_Ty(z.copy(), Pb); Td2, _ = DP.solve_Tx(z.copy(), Pd)
+        w.ensure(f'{tag}bubble: T(P(T)) = T', abs(Tb2 - T) <= 10 * T_ATOL, T_back=Tb2, P=Pb)
+        w.ensure(f'{tag}dew: T(P(T)) = T', abs(Td2 - T) <= 10 * T_ATOL, T_back=Td2, P=Pd)
+        others(tag, 'T', T, Pb, y, Pd, x)
+    w.note(evaluated=evaluated, skipped=skipped)
